@@ -73,3 +73,46 @@ Theorem C15_reporter_stuck_reachable_refuted :
   (Tr [1;2;3;4;5] false false, [false; false; false], []).
 Proof. vm_compute. reflexivity. Qed.
 Print Assumptions C15_reporter_stuck_reachable_refuted.
+
+(* ------------------------------------------------------------------ *)
+(* Sensitivity of "Close is idempotent" to the atomicity of the closed flag.
+   In Model/Udp.v a Close is ONE step (closed.Swap(true)): whatever the order in
+   which overlapping calls take effect, the history is a sequence of Closes and
+   C15_close_idempotent_not_open gives Ok for all but possibly the first.  A
+   Close that first reads the flag and later stores it is two steps; the harness
+   looks for this with k goroutines released by a spin barrier in front of
+   every Close.  Here: k callers, [CRead i] = caller i reads the flag,
+   [CDo i] = caller i (if it saw "open") stores true and closes the socket;
+   closing a socket that is already closed fails. *)
+Inductive cev := CRead (i : nat) | CDo (i : nat).
+
+Record cst := CSt { cflag : bool; csock : bool; csaw : list (nat * bool); cret : list (nat * res) }.
+
+Definition saw (s : cst) (i : nat) : bool :=
+  match find (fun p => Nat.eqb (fst p) i) (csaw s) with Some p => snd p | None => false end.
+
+Definition cstep (s : cst) (e : cev) : cst :=
+  match e with
+  | CRead i => CSt (cflag s) (csock s) ((i, negb (cflag s)) :: csaw s) (cret s)
+  | CDo i =>
+      if saw s i
+      then CSt true true (csaw s) ((i, if csock s then ErrClose else Ok) :: cret s)
+      else CSt (cflag s) (csock s) (csaw s) ((i, Ok) :: cret s)
+  end.
+
+Definition crun (sch : list cev) : cst := fold_left cstep sch (CSt false false [] []).
+
+(* the two-step Close: both callers see "open", the second socket close fails *)
+Theorem C15_nonatomic_close_not_idempotent_refuted :
+  cret (crun [CRead 0; CRead 1; CDo 0; CDo 1]) = [(1%nat, ErrClose); (0%nat, Ok)].
+Proof. vm_compute. reflexivity. Qed.
+Print Assumptions C15_nonatomic_close_not_idempotent_refuted.
+
+(* the same two calls taking effect one after the other (what an atomic swap
+   guarantees) both return nil, in either order *)
+Theorem C15_atomic_close_orders_ok :
+  cret (crun [CRead 0; CDo 0; CRead 1; CDo 1]) = [(1%nat, Ok); (0%nat, Ok)] /\
+  cret (crun [CRead 1; CDo 1; CRead 0; CDo 0]) = [(0%nat, Ok); (1%nat, Ok)] /\
+  rs 5 fresh [Close true; Close true] = [Ok; Ok].
+Proof. vm_compute. auto. Qed.
+Print Assumptions C15_atomic_close_orders_ok.
